@@ -25,7 +25,7 @@ where
     B: Body + Send + 'static,
     B::Data: bytes::Buf,
 {
-    type Response = http::Response<ScriptBody>;
+    type Response = http::Response<crate::codec_drv::SegBody<ScriptBody>>;
     type Error = std::convert::Infallible;
     type Future = std::pin::Pin<Box<dyn std::future::Future<Output = Result<Self::Response, Self::Error>> + Send>>;
     fn poll_ready(&mut self, _: &mut Context<'_>) -> Poll<Result<(), Self::Error>> {
@@ -57,7 +57,8 @@ where
             *seen.lock().unwrap() = Some((parts, data));
             let (sb, st) = ScriptBody::new(steps);
             *stats_slot.lock().unwrap() = Some(st);
-            let mut resp = http::Response::new(sb);
+            // the transport may hand its data over as non-contiguous buffers
+            let mut resp = http::Response::new(crate::codec_drv::SegBody::new(sb, crate::codec_drv::SEGMENTED.with(|c| c.get())));
             resp.headers_mut().insert("content-type", "application/grpc-web+proto".parse().unwrap());
             Ok(resp)
         })
@@ -88,6 +89,11 @@ pub fn gen_trailers(rng: &mut Rng) -> Vec<(String, Vec<u8>)> {
         }
         if v.is_empty() || v.contains('\r') {
             v = "v".into();
+        }
+        // runs of inner blanks are part of a value (leading and trailing blanks are not: HTTP field
+        // values never start or end with whitespace, RFC 9113 section 8.2.1)
+        if rng.chance(1, 8) {
+            v.push_str(*rng.pick(&["  x", " \t y", "a  b  c"]));
         }
         let mut vb = v.into_bytes();
         // header values may carry opaque octets (obs-text, 0x80..=0xff): a trailer value is bytes,
@@ -139,7 +145,7 @@ pub fn run(cfg: &RunCfg) -> Ctx {
     }
     all.merge(par_cases(cfg, "truncate", cfg.n(200, 8000), || (), |_, rng, ctx, _| truncate_case(rng, ctx)));
     all.merge(par_cases(cfg, "request", cfg.n(1200, 16 * 20_000), || (), |_, rng, ctx, _| request_case(rng, ctx)));
-    for k in ["cut.inside_frame_header", "cut.inside_trailers_frame", "chunk.message_and_trailers_together", "trailers.colon_in_value", "trailers.repeated_name", "trunc.inside_frame", "trunc.on_boundary", "observed.trailers_recovered"] {
+    for k in ["cut.inside_frame_header", "cut.inside_trailers_frame", "chunk.message_and_trailers_together", "chunk.segmented_buffers", "trailers.colon_in_value", "trailers.repeated_name", "trunc.inside_frame", "trunc.on_boundary", "observed.trailers_recovered"] {
         all.floor(k, 5);
     }
     all
@@ -257,6 +263,11 @@ fn always(ctx: &mut Ctx, d: &Drained) -> bool {
 }
 
 fn complete_case(rng: &mut Rng, ctx: &mut Ctx, all_cuts: bool) {
+    // a third of the cases deliver every chunk as a non-contiguous buffer
+    let segmented = rng.chance(1, 3);
+    if segmented {
+        ctx.count("chunk.segmented_buffers");
+    }
     let frames = gen_frames(rng, all_cuts);
     let trailers = gen_trailers(rng);
     let space = rng.chance(1, 3);
@@ -316,7 +327,7 @@ fn complete_case(rng: &mut Rng, ctx: &mut Ctx, all_cuts: bool) {
         }
         let chunks = split_at_cuts(&body, &cuts);
         let steps = body_steps(rng, chunks, 1, 4, false);
-        let d = match drive(steps, 3) {
+        let d = match crate::codec_drv::with_segmented(segmented, || drive(steps, 3)) {
             Ok(d) => d,
             Err(e) => {
                 ctx.violation("harness", e);
@@ -359,6 +370,7 @@ fn complete_case(rng: &mut Rng, ctx: &mut Ctx, all_cuts: bool) {
 }
 
 fn truncate_case(rng: &mut Rng, ctx: &mut Ctx) {
+    let segmented = rng.chance(1, 3);
     let frames = gen_frames(rng, true);
     let trailers = gen_trailers(rng);
     let (body, starts) = web_body(&frames, &trailers, false);
@@ -375,7 +387,7 @@ fn truncate_case(rng: &mut Rng, ctx: &mut Ctx) {
         let cuts = cut_positions(rng, at, style, &starts);
         let chunks = if at == 0 { vec![] } else { split_at_cuts(&body[..at], &cuts) };
         let steps = body_steps(rng, chunks, 1, 4, false);
-        let d = match drive(steps, 3) {
+        let d = match crate::codec_drv::with_segmented(segmented, || drive(steps, 3)) {
             Ok(d) => d,
             Err(e) => {
                 ctx.violation("harness", e);
